@@ -2309,11 +2309,16 @@ fn main() {
                                 let mut act = sp::Act::default();
                                 if let FrameBody::Attach(_) = &f.body {
                                     act.replies = sp::default_answers(f, &cfg).0;
-                                    let error = if kind2.ends_with("_err") { Some(defs::Error::new(defs::AmqpError::InternalError, Some("peer says no".to_string()), None)) } else { None };
+                                    let error = if kind2.contains("_err") { Some(defs::Error::new(defs::AmqpError::InternalError, Some("peer says no".to_string()), None)) } else { None };
                                     if kind2.starts_with("close") {
                                         act.replies.push(Frame::new(0u16, FrameBody::Close(Close { error })));
                                     } else {
                                         act.replies.push(Frame::new(f.channel, FrameBody::End(End { error })));
+                                        if kind2 == "end_err_close" {
+                                            // the peer's close follows its end back-to-back: the connection engine may stop (and
+                                            // publish its reason) before the session engine has looked at the end
+                                            act.replies.push(Frame::new(0u16, FrameBody::Close(Close { error: None })));
+                                        }
                                     }
                                     act.handled = true;
                                 }
@@ -2382,6 +2387,7 @@ fn main() {
                                 "close_err" => link == "conn_remote_closed_with_error:true" && c == "conn_remote_closed_with_error" && sess == "session_ok",
                                 "close" => link == "conn_remote_closed" && c == "conn_remote_closed" && sess == "session_ok",
                                 "end_err" => link == "session_remote_ended_with_error:true" && sess == "session_remote_ended_with_error",
+                                "end_err_close" => link == "session_remote_ended_with_error:true",
                                 _ => link == "session_remote_ended" && sess == "session_remote_ended",
                             };
                             format!("{{\"link\":\"{}\",\"session\":\"{}\",\"connection\":\"{}\",\"as_expected\":{}}}", link, sess, c, as_expected)
